@@ -12,9 +12,16 @@ CHECKS = {
              "quote and backslash protection in every delimiter context; infix condition == function-call form; string order is "
              "a strict total order. Tie: every run evaluates both models and the Coq specification (vm_compute) and "
              "bob.stringparser from /repo on the same rendered ASTs, raw strings and if-expressions (full and minimal "
-             "parentheses); an independent evaluator of the documented semantics is the failing-input oracle.",
+             "parentheses); an independent evaluator of the documented semantics is the failing-input oracle. The concrete syntax "
+             "of if-expressions is in the model too (IfGrammar.v: PEG transliteration of the pyparsing grammar as instantiated by "
+             "stringparser.py): parse_if_render (every well-formed AST, rendered with minimal parentheses, parses back to itself), "
+             "parse_if_of_text (any white space, redundant parentheses, any literal spelling), totality, precedence and "
+             "associativity for arbitrary operands (tighter_operator_groups_right, binary_operators_left_associative, "
+             "not_binds_tightest, chained_comparison_rejected), single_quoted_literal_verbatim; tied by comparing parse_if with the "
+             "object tree the real parser builds on rendered ASTs, token soups and Coq-rendered texts.",
         note="trusted: Coq kernel, vm_compute, harness generators/literal printer, constants translator; re/fnmatch functions "
-             "and the pyparsing grammar are exercised on the implementation only",
+             "are exercised on the implementation only; pyparsing itself is not verified (its instantiated grammar is modelled and "
+             "compared), BinaryStrOperator's parse-action type check is modelled as a check after the syntactic parse",
         technique="Coq proof (induction over token scanner / expression AST) + model-vs-implementation correspondence",
         design="5/C17"),
 }
@@ -26,8 +33,8 @@ CHECKS["C02"] = dict(
          "not separated when host parts move between arguments (finding F5, known). Tie: per step of generated projects the "
          "model id (Coq SHA-1, vm_compute) equals getVariantId() of the real RecipeSet; oracle: across a project and its "
          "single-edit neighbours equal id <=> equal (scripts run, non-weak variable values, tools, input variants).",
-    note="trusted: Coq kernel, vm_compute, harness, Common/Sha1.v instance (test vectors); YAML parsing and class resolution are "
-         "exercised through the real parser only",
+    note="trusted: Coq kernel, vm_compute, harness, Common/Sha1.v instance (test vectors); YAML parsing is exercised through the "
+         "real parser only (class resolution: see C03)",
     technique="Coq proof (decoder round trip => injectivity; collision-extraction) + model-vs-implementation correspondence",
     design="5/C02")
 CHECKS["C03"] = dict(
@@ -35,8 +42,17 @@ CHECKS["C03"] = dict(
          "purity (function of core and host stream), Build-Id ignores variant/path/libs of weakly used tools. Tie: model "
          "Build-Ids equal StepIR.getDigestCoro of the real code; oracle: ids of generated projects are identical under other "
          "absolute path, permuted file/key order, PYTHONHASHSEED, warm caches, id-irrelevant edits, sandbox on/off (except "
-         "fingerprinted steps), and the shipped reference project reproduces its golden ids.",
-    note="trusted as C02; Build-Ids use synthetic source hashes/fingerprints (the digest function is what is tied)",
+         "fingerprinted steps), and the shipped reference project reproduces its golden ids. Class resolution is in the model "
+         "(Ids/Classes.v: Recipe.__resolveClassesOrder and the merge loop of resolveClasses, also as an in-place version threading "
+         "a heap of objects): linearise_no_class_twice / exactly_the_ancestors / bases_before_derived / succeeds_iff / "
+         "never_out_of_fuel, resolve_depends_only_on_ancestors (unrelated recipes and classes have no influence), "
+         "resolve_inplace_is_resolve_and_frames and resolve_inplace_commutes (resolving recipes in any order gives the same "
+         "results and leaves every class object unchanged), override/union/script-order laws; tied by resolving generated class "
+         "hierarchies with the real RecipeSet (private fields after resolution) and in Coq, with direct oracles: same resolved "
+         "recipes and Variant-Ids under another file read order / an added unreferenced recipe, class objects unchanged.",
+    note="trusted as C02; Build-Ids use synthetic source hashes/fingerprints (the digest function is what is tied); YAML parsing, "
+         "schema validation and Recipe.__init__ stay with the real parser (the class model starts from the object state after "
+         "__init__); two objects sharing one list/dict object are not expressible in the heap model (covered by the pollution oracle)",
     technique="Coq proof (canonical sorting, purity) + configuration-sweep differential check + golden ids",
     design="5/C02-C03")
 
